@@ -358,6 +358,15 @@ class SymBidict:
         self._index(ent, 0)
         self._index(ent, 1)
 
+    def clone(self):
+        c = SymBidict()
+        for k, v in self.ents:
+            ent = [k, v]
+            c.ents.append(ent)
+            c._index(ent, 0)
+            c._index(ent, 1)
+        return c
+
     def get(self, key, default=None):
         e = self._find(key, 0)
         return default if e is None else e[1]
@@ -508,8 +517,11 @@ class Md5Stub:
         key = self.dig.get_id()
         ent = _HEX_CACHE.get(key)
         if ent is None:
-            ent = _HEX_CACHE[key] = (self.dig, [core.hex_char_of_nibble(z3.Extract(127 - 4 * i, 124 - 4 * i, self.dig)) for i in range(32)])
-        return SStr(list(ent[1]))
+            dig = self.dig
+            if len(_HEX_CACHE) > 200000:
+                _HEX_CACHE.clear()
+            ent = _HEX_CACHE[key] = (dig, core.LazyChars(32, lambda i: core.hex_char_of_nibble(z3.Extract(127 - 4 * i, 124 - 4 * i, dig))))
+        return SStr(ent[1])
 
     def digest(self):
         if self._real is not None:
